@@ -1,6 +1,6 @@
 /-
 C10 — model of the Go manifest package (sdk/go/manifest/manifest.go) as it is now (after the
-`fix:` commits 584d30b firstBlock, d559316 EscapeName, 4f92334 / b1a09e4 parseManifestStream): UnescapeName/EscapeName,
+`fix:` commits 584d30b firstBlock, d559316 EscapeName, 4f92334 / b1a09e4 / 2fef6b9 parseManifestStream): UnescapeName/EscapeName,
 parseManifestStream, firstBlock (the binary search as written, `-1` and the index panic explicit),
 sendFileSegmentIterByName (its two `panic`s are the outcome `Res.panic`), segment, normalizedText,
 manifestTextForPath / Extract, and the helpers path.Clean / fixStreamName / splitPath.
@@ -243,6 +243,9 @@ def pkgParseStream (line : Bytes) : PStream :=
     match pkgBlocks btoks with
     | none => ⟨name, btoks.map (⟨·, 0⟩), [], [], true⟩
     | some blocks =>
+      -- fix 2fef6b9: `streamoffset+uint64(bl.Size) < streamoffset` is an error (every size is below
+      -- 2^63, so some prefix sum wraps exactly when the total reaches 2^64)
+      if streamLen blocks ≥ two64 then ⟨name, blocks, [], [], true⟩ else
       let offs := offsetsFrom 0 blocks
       if ftoks = [] then ⟨name, blocks, offs, [], true⟩ else
       let (files, e) := pkgFileToks name (offs.getLastD 0) ftoks
